@@ -1,4 +1,5 @@
 """C15 -- zone and row/column addressing hits exactly the addressed cells, once each."""
+import itertools
 import time
 
 from vlib import report, scripth, shapes, refsem as R
@@ -65,8 +66,13 @@ def worker(args):
 def run(tier, seed):
     t0 = time.time()
     cases = build_cases(tier, seed)
-    items = [{'case': c, 'timeout_ms': 6000, 'max_paths': 400 if tier == 'quick' else 3000,
-              'budget_s': 12 if tier == 'quick' else 120} for c in cases]
+    # interleave the matrix sizes: when the machine is busy the quick tier's budget cuts from the end of the list
+    by_size = {}
+    for c in cases:
+        by_size.setdefault(c.tag.split('-')[1] if '-' in c.tag else '', []).append(c)
+    cases = [c for group in itertools.zip_longest(*by_size.values()) for c in group if c is not None]
+    items = [{'case': c, 'timeout_ms': 6000, 'max_paths': 300 if tier == 'quick' else 3000,
+              'budget_s': 8 if tier == 'quick' else 120} for c in cases]
     results, skipped = report.run_pool(worker, items, budget_s=common.tier_budget(tier, 70, 900))
     return report.finish(
         PROP, tier, seed, 'exploration', results, skipped,
